@@ -666,7 +666,8 @@ class FnTr(object):
         if isinstance(s, ast.Raise):
             if rest:
                 refuse(rest[0], "unreachable statement")
-            return pad + self.raise_(s)
+            tail = self.raise_(s, L)            # L: what evaluating the message does first (len() of a bound)
+            return out(L, pad + tail)
         if isinstance(s, ast.Assign):
             self.assign(s, L)
             return out(L, self.block(rest, fall, ind))
@@ -694,22 +695,24 @@ class FnTr(object):
             return "ret (%s)" % ", ".join("(%s, %s)" % (o.coq, o.attrs["strategy"].coq) for o in objs)
         return "ret %s" % self.tuple_text([o.coq for o in objs])
 
-    def raise_(self, s):
+    def raise_(self, s, L):
         x = s.exc
         if s.cause is not None or x is None:
             refuse(s, "raise form")
         if isinstance(x, ast.Call):
             if x.keywords or len(x.args) > 1:
                 refuse(s, "exception arguments")
+            if not (isinstance(x.func, ast.Name) and x.func.id in ("IndexError", "ValueError") and x.func.id not in self.env):
+                refuse(s, "exception type")
             for a in x.args:
-                self.message(a)
+                self.message(a, L)
             x = x.func
         if not (isinstance(x, ast.Name) and x.id in ("IndexError", "ValueError") and x.id not in self.env):
             refuse(s, "exception type")
         return "raise %s" % x.id
 
-    def message(self, a):
-        """the exception message must not be able to fail: a string, or "fmt" % (ints...)"""
+    def message(self, a, L):
+        """the exception message: a string, or "fmt" % (ints...); evaluating the ints may only call len()"""
         if isinstance(a, ast.Constant) and isinstance(a.value, str):
             return
         if isinstance(a, ast.BinOp) and isinstance(a.op, ast.Mod) and isinstance(a.left, ast.Constant) \
@@ -719,9 +722,9 @@ class FnTr(object):
             if len(specs) != len(args) or any(c not in "dsri" for c in specs):
                 refuse(a, "format string of the exception message")
             for x in args:
-                L = []
+                n = len(L)
                 v = self.expr(x, L)
-                if v.ty != "Z" or any(" <- random" in l or " <- rand" in l or " <- sample" in l for l in L):
+                if v.ty != "Z" or any(" <- py_len " not in l for l in L[n:]):
                     refuse(a, "argument of the exception message")
             return
         refuse(a, "exception message")
